@@ -151,4 +151,9 @@ def all_cases():
         ("dir-named-like-the-package", "my_nada_dsl_programs", "tour3.py", m.text(), m),
         ("file-named-like-the-package", "progs", "nada_dsl_tour.py", m.text(), m),
         ("two-files", "progs2", "c19_main.py", tour_two_files().text(), tour_two_files()),
+        # characters that str.splitlines() treats as line boundaries and Python's line numbering does not, in a comment on line 1
+        ("tour-other-separators", "progs", "tour_sep.py",
+         m.text().replace("\n", "  # separators: \x0c \x0b \x1c \x1d \x1e \x85 \u2028 \u2029 end\n", 1), m),
+        # a file saved as UTF-8 with a byte order mark
+        ("tour-bom", "progs", "tour_bom.py", "\ufeff" + m.text(), m),
     ]
